@@ -198,9 +198,9 @@ def c40(c):
     c.assume("each keybase call costs 1-2 scrypt evaluations (N=32768): the quick tier replays a seeded 1-in-%d sample of the "
              "transition cover, the thorough tier the complete cover" % QUICK_SAMPLE)
 
-    def replay(beh, what, variants, sample=1):
-        cmd = [BIN, "replay-keybase", "-in", "{in}", "-variants", variants]
-        rep = vf.run_harness(BIN, ["replay-keybase", "-in", beh, "-variants", variants, "-sample", sample, "-offset", c.seed],
+    def replay(beh, what, variants, npass, sample=1):
+        cmd = [BIN, "replay-keybase", "-in", "{in}", "-variants", variants, "-npass", str(npass)]
+        rep = vf.run_harness(BIN, ["replay-keybase", "-in", beh, "-variants", variants, "-npass", npass, "-sample", sample, "-offset", c.seed],
                              env={"VERIF_SEED": c.seed}, timeout=5000)
         if rep.get("behaviours", 0) == 0:
             raise vf.MachineryError("no keybase behaviour replayed (%s)" % what)
@@ -211,16 +211,16 @@ def c40(c):
     # 1. spec -> code: transition cover of the keybase / armor state graph
     beh = _cover(c, "MCKeybase", "MCKeybase_cover.cfg", "TLC exhaustive MCKeybase_cover.cfg")
     if thorough:
-        replay(beh, "complete transition cover MCKeybase_cover.cfg on keys.NewInMemory / lazy keybase / mintkey", "mem,lazy")
+        replay(beh, "complete transition cover MCKeybase_cover.cfg on keys.NewInMemory / lazy keybase / mintkey", "mem,lazy", 2)
         beh = _cover(c, "MCKeybase", "MCKeybase_cover_t.cfg", "TLC exhaustive MCKeybase_cover_t.cfg")
-        replay(beh, "1-in-%d sample of transition cover MCKeybase_cover_t.cfg (3 passphrases, 3 keys)" % THOROUGH_SAMPLE_T, "mem,lazy", THOROUGH_SAMPLE_T)
+        replay(beh, "1-in-%d sample of transition cover MCKeybase_cover_t.cfg (3 passphrases, 3 keys)" % THOROUGH_SAMPLE_T, "mem,lazy", 3, THOROUGH_SAMPLE_T)
     else:
-        replay(beh, "seeded 1-in-%d sample of transition cover MCKeybase_cover.cfg on keys.NewInMemory / mintkey" % QUICK_SAMPLE, "mem", QUICK_SAMPLE)
+        replay(beh, "seeded 1-in-%d sample of transition cover MCKeybase_cover.cfg on keys.NewInMemory / mintkey" % QUICK_SAMPLE, "mem", 2, QUICK_SAMPLE)
     if c.violations:
         return c.finish(rule="stopped after the first failing stage")
     # 2. spec -> code: random operation sequences (4 keys, 3 passphrases, 3 armors)
     beh = _simulate(c, "MCKeybase", "MCKeybase_sim.cfg", 25 if thorough else 5, 12, "TLC -simulate MCKeybase_sim.cfg")
-    replay(beh, "TLC -simulate operation sequences of length 10", "mem,lazy" if thorough else "mem")
+    replay(beh, "TLC -simulate operation sequences of length 10", "mem,lazy" if thorough else "mem", 3)
     if c.violations:
         return c.finish(rule="stopped after the first failing stage")
 
@@ -258,8 +258,133 @@ def replay_generic(c, path):
     return _replay_any(c, path, json.load(open(path)))
 
 
+# ------------------------------------------------------------------------------ C38
+F_C38 = "F-C38-stdsignature-nil-pubkey"
+
+
+def _spec_catalogue():
+    import re
+    txt = open(os.path.join(SPEC, "CodecCatalogue.tla")).read()
+    cat = {}
+    for m in re.finditer(r'\("([^"]+)" :> \[amino \|-> (\w+), proto \|-> (\w+), json \|-> (\w+), msg \|-> (\w+),\s*shapes \|-> \{([^}]*)\}\]\)', txt):
+        cat[m.group(1)] = {"amino": m.group(2) == "TRUE", "proto": m.group(3) == "TRUE", "json": m.group(4) == "TRUE",
+                           "msg": m.group(5) == "TRUE", "shapes": sorted(x.strip().strip('"') for x in m.group(6).split(","))}
+    return cat
+
+
+def _sharded_replay(c, beh, nshards, known):
+    """Mode-machine histories change process-global codec settings as they run: shard them over processes."""
+    import concurrent.futures as cf
+    args = ["replay-codec", "-in", beh] + (["-known", known] if known else [])
+    with cf.ThreadPoolExecutor(nshards) as ex:
+        reps = list(ex.map(lambda i: vf.run_harness(BIN, args + ["-shard", i, "-nshards", nshards], env={"VERIF_SEED": c.seed}, timeout=3000),
+                           range(nshards)))
+    tot = dict(reps[0])
+    for r in reps[1:]:
+        for k in ("behaviours", "steps", "nontrivial", "distinct", "n_mismatches"):
+            tot[k] = tot.get(k, 0) + r.get(k, 0)
+        tot["mismatches"] = (tot.get("mismatches", []) + r.get("mismatches", []))[:5]
+    return tot
+
+
+def c38(c):
+    thorough = c.tier == "thorough"
+    vf.build_harness([BIN])
+    c.assume("byte-level fidelity is decided by the replay comparison (reflection-based canonical form of original and decoded "
+             "value, nil and empty identified only where listed under nil_empty_equivalences_used); the specification contributes "
+             "the mode state machine, its model-checked invariants, the case enumeration and the permutation invariance")
+    c.assume("decoders fed with the other format's bytes are assumed to fail (the fallback order relies on it); the harness checks "
+             "the decoded value, so a decoder that wrongly succeeds is caught where the code promises the value")
+    c.assume("governance discipline: upgrades are scheduled for future heights and never move GetCodecUpgradeHeight() to a height "
+             "that has already begun (without this TLC finds unreadable legacy state; see CodecModes.tla Upgrade)")
+    c.assume("public-key-typed fields always hold a key (constructors and ValidateBasic require one), except StdSignature.PublicKey "
+             "which the code documents as optional; 8.0 node types (Validator, MsgStake with maps) exist only in the protobuf era")
+    # 0. the two catalogues are the same
+    rep = vf.run_harness(BIN, ["list-cases"])
+    hcat = rep["extra"]["types"]
+    scat = _spec_catalogue()
+    if hcat != scat:
+        diff = sorted(set(hcat) ^ set(scat)) or [t for t in hcat if hcat[t] != scat.get(t)]
+        raise vf.MachineryError("harness catalogue and CodecCatalogue.tla differ: %s" % diff[:5])
+    ncases = sum(len(v["shapes"]) for v in hcat.values())
+    c.parts.append("catalogue: %d types, %d (type, shape) constructors, identical in spec and harness" % (len(hcat), ncases))
+    known = _known(c, F_C38)
+    kflag = F_C38 if known else ""
+    hits = 0
+    equiv = set()
+    unjudged = {}
+
+    def replay(beh, what, shards=1):
+        nonlocal hits
+        cmd = [BIN, "replay-codec", "-in", "{in}"]
+        if shards > 1:
+            rep = _sharded_replay(c, beh, shards, kflag)
+        else:
+            rep = vf.run_harness(BIN, ["replay-codec", "-in", beh] + (["-known", kflag] if kflag else []), env={"VERIF_SEED": c.seed}, timeout=3000)
+        if rep.get("behaviours", 0) == 0:
+            raise vf.MachineryError("nothing replayed: " + what)
+        c.add_replay(rep, what)
+        vf.replay_mismatch_violations(c, rep, "C38 " + what, cmd)
+        ex = rep.get("extra", {})
+        hits += sum(ex.get("known_hits", {}).values())
+        equiv.update(ex.get("nil_empty_equivalences_used", []))
+        for k, v in ex.get("unjudged_pairs", {}).items():
+            unjudged[k] = unjudged.get(k, 0) + v
+        os.remove(beh)
+        return rep
+
+    # 1. the mode state machine: model-checked, every transition replayed on the real codec
+    for cfg in (["MCCodec_machine_test.cfg", "MCCodec_machine_main.cfg"] if thorough else ["MCCodec_machine_q.cfg"]):
+        beh = _cover(c, "MCCodec", cfg, "TLC exhaustive " + cfg, timeout=3000)
+        replay(beh, "mode state machine %s: Put/Get/Query/NextBlock/ConvertState/Upgrade on real encoded module state" % cfg, shards=8)
+    if c.violations:
+        return c.finish(rule="stopped after the first failing stage")
+    # 2. the stateless matrices
+    cfg = "MCCodec_cases.cfg" if thorough else "MCCodec_casesq.cfg"
+    beh = _cover(c, "MCCodec", cfg, "TLC case matrices " + cfg, timeout=3000)
+    replay(beh, "binary round trips (type x shape x configuration x override x encode/decode height, bare and length-prefixed), amino "
+                "JSON round trips (plain and sorted), sign-bytes permutation invariance, whole transactions through "
+                "DefaultTxEncoder / DefaultTxDecoder")
+    if c.violations:
+        return c.finish(rule="stopped after the first failing stage")
+
+    # 3. code -> spec
+    ntr = 1500 if thorough else 200
+    tr = os.path.join(c.scratch, "trace-codec.ndjson")
+    targs = ["trace-codec", "-out", tr, "-n", ntr]
+    rep = vf.run_harness(BIN, targs, env={"VERIF_SEED": c.seed})
+    c.add("impl_steps", rep["steps"])
+    res = vf.validate_trace(c, SPEC, "TraceCodec", "TraceCodec.cfg", tr, "seeded driver traces (random upgrade heights, overrides, heights)",
+                            [BIN] + [str(a) for a in targs], ntr, timeout=3000)
+    with open(tr) as f:
+        c.sample([json.loads(next(f)) for _ in range(4)])
+    if res.ok:
+        def corrupt(lines):
+            for i, l in enumerate(lines):
+                e = json.loads(l)
+                if e.get("op") == "RT" and i > 30 and e.get("status") == "ok" and e.get("fmt") in ("amino", "proto"):
+                    e["fmt"] = "amino" if e["fmt"] == "proto" else "proto"
+                    return lines[:i] + [json.dumps(e)] + lines[i + 1:]
+            return None
+        vf.binding_selftest(c, SPEC, "TraceCodec", "TraceCodec.cfg", tr, corrupt, "the format of one encoding swapped")
+    if hits:
+        c.known_finding("a StdTx whose StdSignature carries no public key (documented as optional; accepted by the legacy codec, by the "
+                        "protobuf decoder and by the ante handler) cannot be protobuf-encoded: StdSignature.ToProto dereferences the nil "
+                        "key and panics (%d enumerated transactions); fix proposed in fixes/C38-stdsignature-nil-pubkey.diff" % hits)
+    return c.finish(
+        rule="cases = every transition of the bounded mode state machine as shortest history + transition, the enumerated stateless "
+             "matrices, recorded driver events; distinct = distinct case text; non-trivial = the code promises the value back "
+             "(exp = ok), or a sign-bytes permutation, or a machine history of more than two steps",
+        exhaustive=True,
+        extra_cov={"nil_empty_equivalences_used": sorted(equiv), "unjudged_pairs": unjudged})
+
+
 ENGINE_KIND = "TLA+ specs SigIdeal / Keybase / CodecModes (TLC exhaustive cover + simulation) replayed into crypto, crypto/keys, codec; recorded traces validated by TraceSig / TraceKeybase / TraceCodec"
 PROPERTIES = {
+    "C38": {"run": c38, "replay": replay_generic, "level": "model_checking", "engine": "crypto", "design_ref": "DESIGN.md section 6 C38",
+            "technique": "TLA+ model (CodecModes.tla over CodecOps.tla / CodecCatalogue.tla): the amino/protobuf mode state machine with ConvertState and governance re-scheduling is model-checked by TLC and every transition replayed on the real codec with real encoded values; TLC-enumerated case matrices (type x shape x configuration x override x heights; JSON; sign-bytes permutations; whole transactions) replayed; recorded traces validated by TLC (TraceCodec.tla)",
+            "text": "The height-dependent choice between legacy amino and protobuf (UpgradeHeight, OldUpgradeHeight, the 30024 constant, the upgrade override, legacy-first fallback) is modelled as the code has it; TLC checks that stored module state and every historical snapshot stay decodable through the upgrade block, ConvertState in any module order and later re-scheduling. 27 types / 130+ explicit (type, shape) constructors (zero, nil, empty, maximal, secp256k1 and multi-signature keys) are pushed through both binary codecs at the enumerated height pairs, through amino JSON (plain and key-sorted), through the transaction encoder/decoder with six signature shapes, and the sign bytes of every message are checked invariant under seven member-order / white-space permutations.",
+            "note": "Honest limit: byte-level fidelity is decided by the replay comparison (a reflection walk over original and decoded value), not by the model, where a round trip is the identity by construction; the model contributes the mode state machine (model-checked), the enumeration and the permutation invariance. Known finding F-C38: StdSignature without public key panics in ToProto."},
     "C40": {"run": c40, "replay": replay_generic, "level": "model_checking", "engine": "crypto", "design_ref": "DESIGN.md section 6 C40",
             "technique": "TLA+ model (Keybase.tla over KeybaseOps.tla) checked by TLC; transition cover and simulated operation sequences replayed on the real keybase and mintkey armor layer; recorded traces validated by TLC (TraceKeybase.tla)",
             "text": "The keybase is modelled as a map key -> protecting passphrase plus the list of exported armors; one action per API call (Create, ImportPrivateKeyObject, ImportPrivKey, ExportPrivKeyEncryptedArmor, ExportPrivateKeyObject, Delete, UnsafeDelete, Update, Get, List, Sign) and Decrypt(armor, passphrase, mutation site). Every call's real outcome (error or which key came back, the listing after every mutation, whether the signature verifies) is compared with the model for every right/wrong passphrase combination including the empty and a unicode passphrase and for 12 armor mutation sites.",
